@@ -17,7 +17,7 @@ RULE = ('case = wallet (strategy, fee rate, 3..40 UTXOs, 1-2 accounts) + a round
 ASSUMPTIONS = ['interleavings are produced only at existing suspension points (around AIOSQLite.run); the single sqlite writer thread is real',
                'broadcast is simulated by saving the transaction I/O through the real save_transaction_io (inputs become spent)']
 REQUIRED_HITS = ['D4.failed_after_reserving', 'D1.pairs_checked', 'D2.checked', 'D3.checked', 'D4.failed_builds', 'round.some_failed_some_succeeded',
-                 'resync.during_builds', 'resync.while_held', 'reconnect.while_held', 'phase3.broadcast_failed.rejected', 'phase3.broadcast_failed.cancelled', 'phase3.broadcast_failed.timed_out', 'build.without_outputs', 'pool.has_barely_spendable_coins', 'phase2.late_build', 'phase3.release', 'phase3.broadcast', 'phase3.build_in_between', 'chaos.points']
+                 'resync.during_builds', 'resync.while_held', 'reconnect.while_held', 'round.debug_logging_enabled', 'build.funded_from_a_subset_of_the_accounts', 'phase3.broadcast_failed.rejected', 'phase3.broadcast_failed.cancelled', 'phase3.broadcast_failed.timed_out', 'build.without_outputs', 'pool.has_barely_spendable_coins', 'phase2.late_build', 'phase3.release', 'phase3.broadcast', 'phase3.build_in_between', 'chaos.points']
 
 
 class InjectedFault(Exception):
@@ -52,6 +52,17 @@ async def _round(rec, case):
     rate, strategy, nb = case['rate'], case['strategy'], case['builds']
     nacc = r.choice([1, 1, 2])
     fx = await walletfx.Fx.open(n_accounts=nacc, fee_per_byte=rate, strategy=strategy)
+    import logging
+    lbry_log, old_level = logging.getLogger('lbry'), logging.getLogger('lbry').level
+    if r.random() < 0.3:
+        # `lbrynet start --verbose`: debug logging must not change what gets reserved (seeded break C14-J: a debug line consumed the
+        # generator of outputs to reserve)
+        lbry_log.setLevel(logging.DEBUG)
+        logging.disable(logging.NOTSET)          # the harness silences logging globally (vlib/boot.py); a null handler keeps it quiet instead
+        if not any(isinstance(h, logging.NullHandler) for h in lbry_log.handlers):
+            lbry_log.addHandler(logging.NullHandler())
+        lbry_log.propagate = False
+        rec.hit('round.debug_logging_enabled')
     ch = chaos_mod.Chaos(case['seed'])
     restore = []
     try:
@@ -108,12 +119,18 @@ async def _round(rec, case):
         async def build(name, amount):
             ev(name, 'call', amount)
             try:
+                # which accounts fund this build: all of them (the default) or one (--funding_account_ids); lists that overlap without being
+                # equal compete for the same outputs (seeded break C14-I gave every distinct list a lock of its own)
+                funding = accounts
+                if len(accounts) > 1 and r.random() < 0.5:
+                    funding = [accounts[r.randrange(len(accounts))]]
+                    rec.hit('build.funded_from_a_subset_of_the_accounts')
                 if amount == 0:
                     # a build with no outputs of its own (what abandon / consolidate do): the library adds inputs until a change output fits
                     rec.hit('build.without_outputs')
-                    tx = await Transaction.create([], [], accounts, accounts[0])
+                    tx = await Transaction.create([], [], funding, funding[0])
                 else:
-                    tx = await Transaction.pay(amount, ledger.hash160_to_address(r.randbytes(20)), accounts, accounts[0])
+                    tx = await Transaction.pay(amount, ledger.hash160_to_address(r.randbytes(20)), funding, funding[0])
             except InsufficientFundsError:
                 ev(name, 'refused')
                 return None
@@ -294,6 +311,8 @@ async def _round(rec, case):
                  sample={'strategy': strategy, 'builds': nb, 'succeeded': nsucc, 'refused': nfail, 'utxos': len(initial),
                          'chaos_points': ch.points, 'interleaving_head': ch.trace[:12], 'history_head': [list(h) for h in history[:8]]})
     finally:
+        lbry_log.setLevel(old_level)
+        logging.disable(logging.CRITICAL)
         for f in restore:
             f()
         chaos_mod.uninstall_db()
